@@ -434,7 +434,7 @@ fn compare_topic_details(h: &mut Harness, sid: u32, t: &MTopic, d: &iggy::models
 
 pub async fn check_topic(h: &mut Harness, c: usize, stream: &IdRef, topic: &IdRef) {
     let result = h.clients[c].as_ref().unwrap().get_topic(&stream.to_identifier(), &topic.to_identifier()).await;
-    if !h.perm_gate("get_topic", result.is_ok(), result.as_ref().err()) {
+    if !h.perm_gate_found("get_topic", matches!(result, Ok(Some(_))), result.is_ok(), result.as_ref().err()) {
         return;
     }
     let ids = h.model.topic_ids(stream, topic);
@@ -479,7 +479,7 @@ pub async fn check_topics_listing(h: &mut Harness, c: usize, stream: &IdRef) {
 
 pub async fn check_stream(h: &mut Harness, c: usize, stream: &IdRef) {
     let result = h.clients[c].as_ref().unwrap().get_stream(&stream.to_identifier()).await;
-    if !h.perm_gate("get_stream", result.is_ok(), result.as_ref().err()) {
+    if !h.perm_gate_found("get_stream", matches!(result, Ok(Some(_))), result.is_ok(), result.as_ref().err()) {
         return;
     }
     let sid = h.model.stream_id(stream);
